@@ -426,7 +426,10 @@ def dict_to_array(schema, inval):
         keys = sorted(list(inval.keys()))
         dims = {coord: sorted(list(schema.coords[coord].values))
                 for coord in schema.coords}
-        for name, coords in dims.items():
+        # a dictionary of per-channel values belongs to the illumination axis,
+        # also when its keys happen to label some pixels as well
+        for name in sorted(dims, key=lambda name: name != 'illumination'):
+            coords = dims[name]
             if keys == coords:
                 if isinstance(list(inval.values())[0], xr.DataArray):
                     dim = xr.DataArray(list(inval.keys()), dims=name, name=name)
